@@ -181,6 +181,11 @@ def absorb_arith(model, rep, rule, triples):
                 rep.violation(f'{rule}.{sub}', i.construct, i.detail, i.loc)
             else:
                 rep.cannot(f'{rule}.{sub}', i.construct, i.detail, i.loc)
+    # ... and leave their operands untouched (an in-place operator reached through `x += y` writes into a shared object)
+    for i in dep.instances:
+        if i.rule == 'C06.operands' and any(i.construct == k or i.construct.startswith(k + '.') for k in kinds | {'UnitBase'}):
+            (rep.holds if i.status == 'HOLDS' else (rep.violation if i.status == 'VIOLATION' else rep.cannot))(
+                f'{rule}.operands', i.construct, i.detail, i.loc)
     rep.require(rule, len(want), 'one instance per operator triple the formulas use')
     return n
 
